@@ -19,10 +19,13 @@ import c19
 import c13
 
 
-def simulate(mod):
+def simulate(mod, backend="jax.sparse"):
     if not len(mod.recordings):
         return None
-    return np.asarray(jx.integrate(mod, t_max=0.1 if not mod.externals else None, voltage_solver="jax.sparse"))
+    try:
+        return np.asarray(jx.integrate(mod, t_max=0.1 if not mod.externals else None, voltage_solver=backend))
+    except AssertionError:          # a jaxley.* backend refuses networks of differently shaped cells: original and copies alike
+        return "refused"
 
 
 def grad_of(mod):
@@ -108,6 +111,15 @@ def run(args):
                     r0, r1, r2 = simulate(mod), simulate(mp), simulate(md)
                     if not (np.array_equal(r0, r1, equal_nan=True) and np.array_equal(r0, r2, equal_nan=True)):
                         R.spec_fail(dict(kind="copy-simulates-differently"), "pickle/deepcopy copy simulates differently", desc, None)
+                    # every way of executing the copies (the default custom solver and its padded index structures travel with the copy)
+                    for backend in ("jaxley.stone", "jaxley.thomas"):
+                        q0, q1, q2 = simulate(mod, backend), simulate(mp, backend), simulate(md, backend)
+                        R.count(f"copies-simulated:{backend}:{'refused' if isinstance(q0, str) else 'ok'}")
+                        same = (isinstance(q0, str) and isinstance(q1, str) and isinstance(q2, str)) or (
+                            not isinstance(q0, str) and not isinstance(q1, str) and not isinstance(q2, str)
+                            and np.array_equal(q0, q1, equal_nan=True) and np.array_equal(q0, q2, equal_nan=True))
+                        if not same:
+                            R.spec_fail(dict(kind="copy-simulates-differently", backend=backend), f"pickle/deepcopy copy simulates differently with voltage_solver={backend}", dict(desc, backend=backend), None)
                     if np.all(np.isfinite(r0)) and h % 6 == 0:
                         g0, g1 = grad_of(mod), grad_of(mp)
                         if not np.allclose(g0, g1, rtol=1e-10, atol=1e-12, equal_nan=True):
@@ -132,6 +144,31 @@ def run(args):
             R.disagree("alpha-after-history", desc=desc, impl=c19.diff_summary(a0, model_h)[0], model=c19.diff_summary(a0, model_h)[1])
         if model_all != a2:
             R.disagree("alpha-of-copy-after-second-history", desc=desc, impl=c19.diff_summary(a2, model_all)[0], model=c19.diff_summary(a2, model_all)[1])
+    # ---------------- cells whose solver layout is PADDED (a parent branch narrower than a sibling of its level), built directly and by
+    #                  set_ncomp: the copies carry the index structures of the custom solver and must simulate like the original with
+    #                  every backend
+    from jaxley.channels import HH as _HH
+    for (parents, ncomps, resize) in (([-1, 0, 0, 1], [2, 2, 3, 1], None), ([-1, 0, 0, 1, 1], [4, 4, 4, 4, 4], (1, 2)),
+                                      ([-1, 0, 0, 2, 2, 1], [1, 3, 2, 2, 1, 2], None)):
+        comp = jx.Compartment()
+        cell = jx.Cell([jx.Branch([comp] * k) for k in ncomps], parents=parents)
+        cell.insert(_HH())
+        if resize is not None:
+            cell.branch(resize[0]).set_ncomp(resize[1])
+        nn_ = cell.nodes.shape[0]
+        cell.set("v", rng.uniform(-75, -55, nn_)); cell.set("radius", rng.uniform(0.5, 3.0, nn_)); cell.set("length", rng.uniform(5.0, 40.0, nn_))
+        cell.select(nodes=list(range(nn_))).record("v", verbose=False)
+        cell.select(nodes=[0]).stimulate(jnp.asarray(0.3 * np.ones(8)), verbose=False)
+        pdesc = dict(kind="padded-cell", parents=parents, ncomp=ncomps, resize=resize)
+        try:
+            cp_, cd_ = pickle.loads(pickle.dumps(cell)), copy.deepcopy(cell)
+        except Exception as ex:
+            R.spec_fail(dict(kind="pickle-fails", err=type(ex).__name__), f"copying a padded cell raises {type(ex).__name__}", pdesc, repr(ex)[:200]); continue
+        for backend in ("jaxley.stone", "jaxley.thomas", "jax.sparse"):
+            q0, q1, q2 = simulate(cell, backend), simulate(cp_, backend), simulate(cd_, backend)
+            R.evaluations += 1; R.count(f"padded-copies-simulated:{backend}")
+            if isinstance(q0, str) or isinstance(q1, str) or isinstance(q2, str) or not (np.array_equal(q0, q1, equal_nan=True) and np.array_equal(q0, q2, equal_nan=True)):
+                R.spec_fail(dict(kind="copy-simulates-differently", backend=backend), f"pickle/deepcopy copy of a padded cell simulates differently with voltage_solver={backend}", dict(pdesc, backend=backend), None)
     # ---------------- SWC cells: radius functions survive, set_ncomp after the round trip
     tmpdir = tempfile.mkdtemp(prefix="verif_c18_")
     try:
